@@ -1000,6 +1000,15 @@ impl World {
                             b = b.remove_member(own_index)?;
                         }
                     }
+                    13 => {
+                        // re-init next to a custom proposal that every member supports
+                        b = b
+                            .reinit(None, mls_rs::ProtocolVersion::MLS_10, group_suite, Default::default())?
+                            .custom_proposal(mls_rs::group::proposal::CustomProposal::new(
+                                mls_rs::group::proposal::ProposalType::new(0xF000),
+                                vec![7; 3],
+                            ));
+                    }
                     _ => {
                         // re-init mixed with another proposal
                         b = b
@@ -1226,7 +1235,10 @@ impl World {
                 None => group.propose_update(vec![]),
             },
             PropSpec::Remove { .. } => group.propose_remove(target_idx.unwrap(), vec![]),
+            #[cfg(feature = "self_remove")]
             PropSpec::SelfRemove => group.propose_self_remove(vec![]),
+            #[cfg(not(feature = "self_remove"))]
+            PropSpec::SelfRemove => Err(MlsError::UnexpectedMessageType),
             PropSpec::ExtPsk { id } => {
                 group.propose_external_psk(mls_rs::psk::ExternalPskId::new(vec![b'k', *id]), vec![])
             }
